@@ -18,11 +18,11 @@ class SizeIO(PyBytesIO):
         super().__init__(initial, spooled=spooled)
         self.loaded = []
 
-    def _opaque(self):
-        return bool(self.parts) and not isinstance(self.parts[0], (bytes, bytearray))
+    def _real(self):
+        return bool(self.parts) and isinstance(self.parts[0], (bytes, bytearray))
 
     def read(self, n=-1):
-        if not self._opaque():
+        if self._real():
             r = super().read(n)
             self.loaded.append(len(r))
             return r
